@@ -1078,6 +1078,10 @@ type world struct {
 	shard  *fakeShard
 	family *fakeFamily
 
+	old      bool            // the family is past its writable window (see newWorld)
+	replicas []models.NodeID // what a write stream hands to BuildReplicaForLeader
+	chanUp   bool            // the leader partition has a replicator for the follower
+
 	live  *atomic.Bool
 	fPort atomic.Int32 // port of the address the follower is registered with
 
@@ -1129,8 +1133,16 @@ func (w *world) followerAddr() string {
 	return fmt.Sprintf("%s:%d", followerHost, w.fPort.Load())
 }
 
-func newWorld(base string) (*world, error) {
-	w := &world{base: base, leaderDir: filepath.Join(base, "leader"), followerDir: filepath.Join(base, "follower")}
+// newWorld builds both nodes. old: the family of the partition is, by construction, days past its writable window
+// (time range end + write-ahead + 15 min): every leader gc tick (partition.IsExpire) then takes its expiry path, and -
+// as in production, where BuildReplicaForLeader gets the whole replica list - the leader's log also carries the group of
+// the leader's own local replicator (never run here; the harness moves its ack: event lf).
+func newWorld(base string, old bool) (*world, error) {
+	w := &world{base: base, leaderDir: filepath.Join(base, "leader"), followerDir: filepath.Join(base, "follower"), old: old}
+	w.replicas = []models.NodeID{followerID}
+	if old {
+		w.replicas = []models.NodeID{leaderID, followerID}
+	}
 	w.ctx, w.cancel = context.WithCancel(context.Background())
 	opt := &option.DatabaseOption{}
 	opt.Default()
@@ -1138,7 +1150,12 @@ func newWorld(base string) (*world, error) {
 	hour := int64(3600 * 1000)
 	start := now - now%hour
 	// the family ends one day from now: partition.IsExpire (used as the leader's Sync+GC) never takes its expiry path
+	// (old worlds: see above)
 	w.family = &fakeFamily{tr: timeutil.TimeRange{Start: start, End: start + 24*hour}}
+	if old {
+		// three days old, one hour long: expired by construction, far (days) from the clock-dependent edge
+		w.family = &fakeFamily{tr: timeutil.TimeRange{Start: start - 72*hour, End: start - 71*hour}}
+	}
 	w.shard = &fakeShard{db: &fakeDB{opt: opt}}
 	w.live = &atomic.Bool{}
 	w.live.Store(true)
@@ -1162,14 +1179,12 @@ func (w *world) startLeader() error {
 	w.lLog = q
 	w.lSM = &fakeStateMgr{w: w, live: w.live}
 	w.lPart = replica.NewPartition(w.ctx, w.shard, w.family, leaderID, q, &clientFactory{t: w.tr}, w.lSM)
-	if err := w.lPart.BuildReplicaForLeader(leaderID, []models.NodeID{followerID}); err != nil {
+	if err := w.lPart.BuildReplicaForLeader(leaderID, w.replicas); err != nil {
 		return err
 	}
-	nodes, reps := replica.VerifReplicators(w.lPart)
-	if len(nodes) != 1 || nodes[0] != followerID {
+	if nodes, _ := replica.VerifReplicators(w.lPart); len(nodes) != len(w.replicas) || !w.resolveChannel() {
 		return fmt.Errorf("unexpected replicators %v", nodes)
 	}
-	w.lRep = reps[0]
 	cg, err := q.GetOrCreateConsumerGroup(fmt.Sprintf("%d", followerID))
 	if err != nil {
 		return err
@@ -1177,6 +1192,31 @@ func (w *world) startLeader() error {
 	w.lCG = cg
 	w.lUp = true
 	return nil
+}
+
+// resolveChannel looks up the replicator the leader partition currently runs for the follower (what its replica loop
+// iterates over). Without one (an expire tick stopped the drained channel) the last one stays in lRep for observation
+// only: it is never stepped.
+func (w *world) resolveChannel() bool {
+	nodes, reps := replica.VerifReplicators(w.lPart)
+	for i, n := range nodes {
+		if n == followerID {
+			w.lRep, w.chanUp = reps[i], true
+			return true
+		}
+	}
+	w.chanUp = false
+	return false
+}
+
+// hasGroup: does the leader's log know a consumer group of that node?
+func (w *world) hasGroup(node models.NodeID) bool {
+	for _, n := range w.lLog.ConsumerGroupNames() {
+		if n == fmt.Sprintf("%d", node) {
+			return true
+		}
+	}
+	return false
 }
 
 // stopLeader ends the leader incarnation (process exit). A Prepare parked in IsReady stays parked for ever,
